@@ -2,6 +2,7 @@
 import os, json
 import concurrent.futures as cf
 import vlib
+import c20x
 
 LEVEL = "model_checking"
 INV = "INVARIANTS RefCount NoLeak NoDangling EmptyAtEnd NullNeverCounted TypeOK Emit\nCHECK_DEADLOCK FALSE\n"
@@ -60,19 +61,30 @@ def run(chk):
     vlib.judge_results(chk, cases, res, sig, keyf=lambda c: json.dumps([[s["op"], s["args"]] for s in c["steps"]], sort_keys=True),
                        harness="c20_lifetime", nontrivial=lambda c: any(s["op"] in ("clone", "convert", "move", "movector", "range", "fromlayout") for s in c["steps"]))
     chk.traces = len(cases)
+    # extension to all container families (spec/LifetimeX.tla, harness/c20x_lifetime.cpp, lib/c20x.py); adds to chk.traces
+    xsamples = c20x.run_ext(chk)
     chk.exhaustive = True
     chk.rule = ("all histories of spec/Lifetime.tla up to the stated depth over 2-3 container slots (create in every shape incl. size-0 "
                 "arrays and array-less matrices, clone in all 5 modes within and across data/index types, convert, move, move-ctor, ranged "
                 "slice, layout sharing, clear, destroy in every order, overwrite) plus seeded random histories (-simulate) of depth 9-14; "
                 "each replayed on real containers in the ASan/UBSan build with reference counters, aliasing classes, sizes, contents and "
-                "live chunk count compared after every step; non-trivial = contains a sharing/moving operation; distinct = distinct history")
+                "live chunk count compared after every step; non-trivial = contains a sharing/moving operation; distinct = distinct history.  "
+                "Extension: " + c20x.RULE)
     for c in cases[len(cases) // 2: len(cases) // 2 + 2]:
         chk.sample([[s["op"], s["args"]] for s in c["steps"]])
-    chk.assumptions = ["heap safety inside an operation is observed by ASan/UBSan on the replayed histories, not proved",
+    for smp in xsamples[:2]:
+        chk.sample(smp)
+    chk.assumptions = list(c20x.ASSUMPTIONS) + ["heap safety inside an operation is observed by ASan/UBSan on the replayed histories, not proved",
                        "the owner of a ranged (foreign memory) slice outlives it - an API obligation the specification makes an enabling condition"]
 
 
 def replay(obj):
+    ext = [v for v in obj["violations"] if v.get("replay") and v["replay"].get("harness") == c20x.HARNESS]
+    if ext:
+        import importlib.util
+        sp = importlib.util.spec_from_file_location("check_C20x", os.path.join(vlib.VERIF, "checks", "C20x.py"))
+        m = importlib.util.module_from_spec(sp); sp.loader.exec_module(m)
+        return m.replay({"violations": ext})
     binary, = vlib.build(["c20_lifetime"], variant="asan")
     cases = [v["replay"]["case"] for v in obj["violations"] if v["replay"] and v["replay"].get("kind") == "case"]
     res = vlib.run_cases(binary, cases, tmo=30, shards=1)
